@@ -11,7 +11,8 @@ class C04(RecorderProp):
     RULE = ('random histories of operations on one recorder with every tolerated fault kind (key cannot be built, input/output '
             'data handler raises, unserialisable value, extractor raises / returns junk, save raises), discard / force from '
             'the operation and from intercepted bodies, nested interceptions, interrupts, all sampling parameters, recording '
-            'enabled / disabled / class skipped, on memory / file / S3 cassettes; each run is executed decorated and as an '
+            'enabled / disabled / class skipped, the kill switch flipped mid-operation (also by the main thread while worker interceptions '
+            'are in flight), on memory / file / S3 cassettes and through the asynchronous wrapper; each run is executed decorated and as an '
             'undecorated twin; plus worker-thread scenarios (1-2 workers making intercepted calls while the main thread returns / '
             'discards / joins) under the controlled scheduler: every schedule with <= 2 pre-emptions at line granularity inside '
             'tape_recorder.py (bounded by a run budget) and random schedules; non-trivial = at least one run with an intercepted '
